@@ -164,20 +164,21 @@ def gen(rng, ctx, kind, layout, f32, units):
     npix = 1 if layout == 'scalar' else int(rng.integers(1, 8))
     nt = 1 if layout == 'scalar' else int(rng.integers(1, 25))
     dt = 'float32' if f32 else 'float64'
-    L1 = 10.0 ** rng.uniform(-1, 3)
+    per_pixel_L1 = layout in ('2d', 'binned') and rng.random() < 0.25
+    L1 = 10.0 ** rng.uniform(-1, 3, size=npix) if per_pixel_L1 else np.full(npix, 10.0 ** rng.uniform(-1, 3))
     L2 = 10.0 ** rng.uniform(-1, 3, size=npix)
     Efix = 10.0 ** rng.uniform(-3, 4, size=1 if kind == 'direct' else npix) * meV
     Eother = 10.0 ** rng.uniform(-3, 4, size=(npix, nt)) * meV
     # what the code will see: rounded operands in their units
     r = np.float32 if f32 else np.float64
-    L1_u = r(L1 / fl1)
+    L1_u = (L1 / fl1).astype(r)
     L2_u = (L2 / fl2).astype(r)
     Efix_u = (Efix / fe).astype(r)
-    L1s, L2s, Efs = si.LD(L1_u) * si.LD(fl1), L2_u.astype(si.LD) * si.LD(fl2), Efix_u.astype(si.LD) * si.LD(fe)
+    L1s, L2s, Efs = L1_u.astype(si.LD) * si.LD(fl1), L2_u.astype(si.LD) * si.LD(fl2), Efix_u.astype(si.LD) * si.LD(fe)
     if kind == 'direct':
-        t = L1s / v_of(Efs)[:, None] + L2s[:, None] / v_of(Eother.astype(si.LD))
+        t = (L1s / v_of(Efs))[:, None] + L2s[:, None] / v_of(Eother.astype(si.LD))
     else:
-        t = L1s / v_of(Eother.astype(si.LD)) + (L2s / v_of(Efs))[:, None]
+        t = L1s[:, None] / v_of(Eother.astype(si.LD)) + (L2s / v_of(Efs))[:, None]
     t_u = (t / si.LD(ft)).astype(np.float64)
     # unphysical and near-boundary arrivals
     t0 = (L1s / v_of(Efs))[:, None] if kind == 'direct' else (L2s / v_of(Efs))[:, None]
@@ -214,7 +215,11 @@ def gen(rng, ctx, kind, layout, f32, units):
         kw['L2'] = sc.array(dims=['pixel'], values=L2_u, unit=ul2, dtype=dt)
         efv = (sc.scalar(Efix_u[0].item(), unit=ue, dtype=en_dt) if kind == 'direct'
                else sc.array(dims=['pixel'], values=Efix_u, unit=ue, dtype=en_dt))
-    kw['L1'] = sc.scalar(L1_u.item(), unit=ul1, dtype=dt)
+    if per_pixel_L1:
+        kw['L1'] = sc.array(dims=['pixel'], values=L1_u, unit=ul1, dtype=dt)
+        ctx.hit('per-pixel L1')
+    else:
+        kw['L1'] = sc.scalar(L1_u[0].item(), unit=ul1, dtype=dt)
     kw['incident_energy' if kind == 'direct' else 'final_energy'] = efv
     dec = int(np.floor(np.log10(float(Efix[0] / meV))))
     sig = (kind, ue, ut, ul1, ul2, dt if mixed is None else mixed, tof_dt, layout, dec)
@@ -283,7 +288,7 @@ def plan(tier, seed):
 
 def requirements(tier):
     return {'events': {'energy_transfer_direct_from_tof': 100, 'energy_transfer_indirect_from_tof': 100},
-            'forced': ['tof below t0', 'boundary sextuple'],
+            'forced': ['tof below t0', 'boundary sextuple', 'per-pixel L1'],
             'counters': {'boundary_points': 500, 'decided:below t0': 200, 'decided:above t0': 2000,
                          'convert_calls': 10}}
 
